@@ -265,6 +265,7 @@ func c16Menu() []c16Item {
 }
 
 func runC16(r *core.Run) {
+	runC16Perms(r)
 	menu := c16Menu()
 	idx := make([]string, len(menu))
 	for i := range idx {
@@ -318,6 +319,69 @@ func runC16(r *core.Run) {
 				cv := core.NewConv(cfg)
 				return func(word []byte) uint64 { h, _ := c16Case(s, cv, word); return h }
 			})
+	}
+}
+
+// runC16Perms: k footnotes defined in label order and first referenced in every order (all k! permutations), some of them
+// referenced twice, with the definitions before or after the references: the list is re-sorted by first reference, which
+// is where item order and numbering can come apart once more than three items move.
+func runC16Perms(r *core.Run) {
+	maxK := core.Pick(r, 7, 8)
+	for _, cn := range []string{"footnote", "all+xhtml"} {
+		cfg := core.MustCfg(cn)
+		s := r.Sub("permutations/"+cn, fmt.Sprintf("for k = 1..%d: footnotes f1..fk defined in that order and first referenced in EVERY one of the k! orders, × {each referenced once, every second one referenced twice} × {definitions after, before the references}; same output-consistency oracle, under %s", maxK, cn))
+		var perms [][]int
+		var rec func(cur []int, used uint, k int)
+		rec = func(cur []int, used uint, k int) {
+			if len(cur) == k {
+				perms = append(perms, append([]int{}, cur...))
+				return
+			}
+			for i := 1; i <= k; i++ {
+				if used&(1<<uint(i)) == 0 {
+					rec(append(cur, i), used|1<<uint(i), k)
+				}
+			}
+		}
+		for k := 1; k <= maxK; k++ {
+			rec(nil, 0, k)
+		}
+		s.Bound = fmt.Sprintf("k≤%d: %d permutations × 4 variants", maxK, len(perms))
+		complete := core.ForEachIndex(len(perms), core.Workers(), func(w int) func(int) {
+			cv := core.NewConv(cfg)
+			return func(i int) {
+				pm := perms[i]
+				for v := 0; v < 4; v++ {
+					var refs, defs strings.Builder
+					for pos, x := range pm {
+						fmt.Fprintf(&refs, "r%d[^f%d]", pos, x)
+						if v&1 != 0 && pos%2 == 1 {
+							fmt.Fprintf(&refs, " again[^f%d]", x)
+						}
+						refs.WriteString("\n\n")
+					}
+					for x := 1; x <= len(pm); x++ {
+						fmt.Fprintf(&defs, "[^f%d]: note %d\n\n", x, x)
+					}
+					doc := refs.String() + defs.String()
+					if v&2 != 0 {
+						doc = defs.String() + refs.String()
+					}
+					if h, _ := c16Case(s, cv, []byte(doc)); h != 0 {
+						s.Distinct(h)
+					}
+					if i%(len(perms)/6+1) == 0 && v == 0 {
+						s.AddSample(core.Q([]byte(doc)))
+					}
+				}
+			}
+		}, r.Expired)
+		if !complete {
+			s.Incomplete("internal deadline reached")
+		}
+		s.States.Store(s.Evals.Load())
+		s.Transitions.Store(s.Evals.Load())
+		s.Done()
 	}
 }
 
